@@ -148,7 +148,7 @@ Proof.
     + rewrite IH. reflexivity.
     + match goal with |- context [op_importfrom g ln eln r ?f2] =>
         specialize (IH f2); destruct (op_importfrom g ln eln r f2) as [f3 evs] end.
-      simpl fst in *. rewrite IH. unfold T. cbn [fmembers set_members set_imports fpath]. rewrite minfo_assign. reflexivity.
+      simpl fst in *. rewrite IH, path_import_all. unfold T. rewrite members_import_all. cbn [fmembers set_members set_imports fpath]. rewrite minfo_assign. reflexivity.
   - destruct (String.eqb ap (dot (fpath f) an)).
     + apply IH.
     + match goal with |- context [op_importfrom g ln eln r ?f2] =>
@@ -177,7 +177,7 @@ Lemma idl_eq : forall l g pk,
 Proof. induction l; intros; simpl; [reflexivity|]. rewrite IHl. reflexivity. Qed.
 Lemma id_SIf : forall g pk nd tc body orelse,
   init_details g pk nd (SIf tc body orelse) =
-  init_details_list (g || (is_level pk && tc)) PIf None body ++ init_details_list g PIf None orelse.
+  init_details_list (gbody g pk tc) PIf None body ++ init_details_list (gelse g pk tc) PIf None orelse.
 Proof. intros. simpl. rewrite !idl_eq. reflexivity. Qed.
 Lemma id_SBlock : forall g pk nd ch, init_details g pk nd (SBlock ch) = init_details_list g POther None ch.
 Proof. intros. simpl. rewrite !idl_eq. reflexivity. Qed.
@@ -200,7 +200,7 @@ Lemma ld_SDef : forall k path g pk nd ln dln eln name a ds body,
 Proof. reflexivity. Qed.
 Lemma ld_SIf : forall k path g pk nd tc body orelse,
   level_details k path g pk nd (SIf tc body orelse) =
-  level_details_list k path (g || (is_level pk && tc)) PIf None body ++ level_details_list k path g PIf None orelse.
+  level_details_list k path (gbody g pk tc) PIf None body ++ level_details_list k path (gelse g pk tc) PIf None orelse.
 Proof. intros. simpl. rewrite !ldl_eq. reflexivity. Qed.
 Lemma ld_SBlock : forall k path g pk nd ch, level_details k path g pk nd (SBlock ch) = level_details_list k path g POther None ch.
 Proof. intros. simpl. rewrite !ldl_eq. reflexivity. Qed.
@@ -251,11 +251,11 @@ Proof.
   - simpl sem_stmt. destruct (op_importfrom g ln eln names own). reflexivity.
   - (* SIf *)
     rewrite sem_SIf, id_SIf. cbv zeta. cbn [l_up].
-    destruct (sem_list_facts body (g || (is_level pk && tc)) PIf None own up) as [[A1 _] _].
-    set (a := sem_list (g || (is_level pk && tc)) PIf None body own up) in *.
+    destruct (sem_list_facts body (gbody g pk tc) PIf None own up) as [[A1 _] _].
+    set (a := sem_list (gbody g pk tc) PIf None body own up) in *.
     assert (K' : fkind (l_own a) = InInit) by congruence.
-    rewrite (up_list_of _ H0 g PIf None (l_own a) (l_up a) K'). unfold a.
-    rewrite (up_list_of _ H (g || (is_level pk && tc)) PIf None own up K), run_table_app. reflexivity.
+    rewrite (up_list_of _ H0 (gelse g pk tc) PIf None (l_own a) (l_up a) K'). unfold a.
+    rewrite (up_list_of _ H (gbody g pk tc) PIf None own up K), run_table_app. reflexivity.
   - rewrite sem_SBlock, id_SBlock. apply (up_list_of _ H). exact K.
   - rewrite sem_SSub, id_SSub. apply (up_list_of _ H). exact K.
   - reflexivity.
@@ -333,10 +333,10 @@ Proof.
     destruct (op_importfrom g ln eln names own) as [o' evs]. exact Ka.
   - (* SIf *)
     rewrite sem_SIf, ld_SIf. cbv zeta. cbn [l_own].
-    destruct (sem_list_facts body (g || (is_level pk && tc)) PIf None own up) as [[A1 [_ A3]] _].
-    set (a := sem_list (g || (is_level pk && tc)) PIf None body own up) in *.
-    rewrite (own_list_of _ H0 g PIf None (l_own a) (l_up a)), A1, A3. unfold a.
-    rewrite (own_list_of _ H (g || (is_level pk && tc)) PIf None own up), run_table_app. reflexivity.
+    destruct (sem_list_facts body (gbody g pk tc) PIf None own up) as [[A1 [_ A3]] _].
+    set (a := sem_list (gbody g pk tc) PIf None body own up) in *.
+    rewrite (own_list_of _ H0 (gelse g pk tc) PIf None (l_own a) (l_up a)), A1, A3. unfold a.
+    rewrite (own_list_of _ H (gbody g pk tc) PIf None own up), run_table_app. reflexivity.
   - rewrite sem_SBlock, ld_SBlock. apply (own_list_of _ H).
   - rewrite sem_SSub, ld_SSub. apply (own_list_of _ H).
   - reflexivity.
@@ -468,7 +468,7 @@ Proof. intros. apply tb_list_of. apply Forall_forall. intros. apply tb_all. exac
 (* the tables regenerated from visitor.py ARE the documented table: for every callable path (not only the listed ones) *)
 Lemma deco_labels_documented : forall d, deco_labels d = doc_deco_labels d.
 Proof.
-  destruct d; [|reflexivity].
+  destruct d; [|reflexivity|reflexivity].
   unfold deco_labels, doc_deco_labels, doc_labels, builtin_decorators, stdlib_decorators. simpl assoc_labels.
   repeat (match goal with |- context [String.eqb p ?s] => destruct (String.eqb p s) end; try reflexivity).
 Qed.
@@ -607,7 +607,7 @@ Definition content_sample : list stmt :=
       SDef 8 7 8 "p" false [DAccessor "p" "setter"] [SOther];
       SDef 9 9 16 "__init__" false []
         [SAssign 10 10 [TSelf "y"] []; SDoc 12 12; SImport 14 14 [("os", "os")];
-         SIf false [SAssign 16 16 [TSelf "x"] []] []]];
+         SIf TCNone [SAssign 16 16 [TSelf "x"] []] []]];
    SDef 18 17 18 "f" true [DPath "functools.cache"] [SOther];
    SAssign 19 19 [TName "f"] []].
 Example content_sample_ok :
